@@ -15,7 +15,7 @@ from sexp import S, Z, B, Opt
 from harness import c04
 
 ID = "C01"
-GEN = ["Gen_Exc", "Gen_Urlopen", "Gen_Retry"]
+GEN = ["Gen_Exc", "Gen_Urlopen", "Gen_Retry", "Gen_Read"]
 RULE = ("histories of 1-4 requests on one pool (maxsize 1-3, block on/off), each with preload on/off, retries in {False,0,1,2,Retry(...)}, "
         "and per-attempt outcomes over connect refused/timeout/interrupt, send EPIPE/RESET/other/timeout/interrupt, receive timeout/reset/EOF/garbage/"
         "interrupt, 2xx/5xx keep-alive or close with complete, short or interrupted bodies; every way of disposing of the response; "
